@@ -52,6 +52,9 @@ def _pristine_defaults():
             d = getattr(type(arr), "default", None)
             if isinstance(d, list):
                 out[(c.__name__, attr)] = list(d)
+        dw = getattr(inst, "drawn_waveform", None)
+        if dw is not None and isinstance(getattr(type(dw), "default", None), list):
+            out[(c.__name__, "drawn_waveform")] = list(type(dw).default)
     return out
 
 
@@ -66,6 +69,7 @@ def _class_cases(tier):
         modes = ["edit_all", "edit_controllers_only"]
         if rw._array_attrs(c()) or hasattr(c(), "drawn_waveform"):
             modes.append("edit_payload_in_place")
+            modes.append("edit_default_payload_in_place")
         for mode in modes:
             out.append((f"{K.cls_id(c)},{mode}", (K.cls_id(c), mode)))
     return out
@@ -77,7 +81,11 @@ def edit_after_load(H, case):
     and S1 for what was not; nothing of the first file is replayed."""
     cname, mode = case
     m1 = _build_single(H, cname, in_project=False)
-    rw.sym_payload(H, m1, pfx="pl1.", variant="noenum")
+    if mode == "edit_default_payload_in_place":
+        # the first file carries the DEFAULT payload (elidable chunks are absent from it)
+        mode = "edit_payload_in_place"
+    else:
+        rw.sym_payload(H, m1, pfx="pl1.", variant="noenum")
     q = rw.read_back(H, rw.write_container(H, Synth(m1))).module
     H.check("loaded_same_class", type(q) is type(m1))
     if type(q) is not type(m1):
@@ -113,10 +121,21 @@ def edit_after_load(H, case):
                 H.setattr(q, name, H.int("e.c." + name, t.min, t.max))
             elif t is bool:
                 H.setattr(q, name, H.bool("e.c." + name))
-    r = rw.read_back(H, rw.write_container(H, Synth(q))).module
+    saved = rw.write_container(H, Synth(q))
+    r = rw.read_back(H, saved).module
     rw.check_controllers(H, q, r, "edited.ctl")
     if mode == "edit_payload_in_place":
         rw.check_payload(H, q, r, "edited.payload")
+        if hasattr(q, "drawn_waveform"):
+            # what another process would read: the saved bytes through the independent decoder
+            from spec import format as F
+
+            from .c03 import check_drawn_waveform
+
+            check_drawn_waveform(H, F.parse_stream(saved)[2:], q)
+            want = _PRISTINE.get((cname, "drawn_waveform"))
+            if want is not None:
+                H.check("class_default_untouched[drawn_waveform]", H.eq(list(type(q.drawn_waveform).default), want))
         for attr, arr in rw._array_attrs(q):
             want = _PRISTINE.get((cname, attr))
             if want is not None:
